@@ -211,7 +211,16 @@ impl Exec {
             self.results.iter().map(|r| r.iter().map(|x| x.text()).collect::<Vec<_>>().join(",")).collect();
         let lists: Vec<String> =
             self.lists.iter().map(|l| l.as_ref().map(|l| dots(l)).unwrap_or_else(|| "-".into())).collect();
-        format!("{};{};{};{}", steps.join(","), self.end, res.join("/"), lists.join("/"))
+        // completed operations in completion order: thread, first step, last step
+        let mut spans: Vec<(usize, usize, usize)> = self
+            .spans
+            .iter()
+            .enumerate()
+            .flat_map(|(t, v)| v.iter().map(move |(a, b)| (t, *a, *b)))
+            .collect();
+        spans.sort_by_key(|x| x.2);
+        let spans: Vec<String> = spans.iter().map(|(t, a, b)| format!("{t}:{a}-{b}")).collect();
+        format!("{};{};{};{};{}", steps.join(","), self.end, res.join("/"), lists.join("/"), spans.join(","))
     }
     fn sched_text(&self) -> String {
         self.sched.iter().map(|t| t.to_string()).collect()
